@@ -322,12 +322,22 @@ func init() {
 		var bad []string
 		n := 0
 		for j := range pk.CommitmentKeys {
-			if len(pk.CommitmentKeys[j].Basis) == 0 {
+			// a basis element which is not the point at infinity: the base of a committed wire that
+			// occurs in no constraint is the identity, and (identity, identity) is a valid knowledge
+			// proof under every key (it says nothing about the keys)
+			k := -1
+			for b := range pk.CommitmentKeys[j].Basis {
+				if !pk.CommitmentKeys[j].Basis[b].IsInfinity() {
+					k = b
+					break
+				}
+			}
+			if k < 0 {
 				continue
 			}
 			for i := range vk.CommitmentKeys {
 				n++
-				err := vk.CommitmentKeys[i].Verify(pk.CommitmentKeys[j].Basis[0], pk.CommitmentKeys[j].BasisExpSigma[0])
+				err := vk.CommitmentKeys[i].Verify(pk.CommitmentKeys[j].Basis[k], pk.CommitmentKeys[j].BasisExpSigma[k])
 				if i == j && err != nil {
 					bad = append(bad, fmt.Sprintf("own-pair-rejected: commitment %d: %v", i, err))
 				}
